@@ -119,6 +119,22 @@ func StyleAttr(r *rand.Rand, known []StyleDecl, clean bool) string {
 		decls = append(decls, prop+sep+val)
 	}
 	if clean {
+		// the canonical layout, or the same declarations the way people and tools really write them:
+		// one per line, no space after the colon is handled above, a final semi-colon, blank lines
+		switch r.Intn(8) {
+		case 0:
+			return strings.Join(decls, ";\n") + ";\n"
+		case 1:
+			return "\n  " + strings.Join(decls, ";\n  ") + ";\n"
+		case 2:
+			return strings.Join(decls, ";") + Pick(r, []string{";", "; ", ";\t", ";\r\n", " ;", ";\f"})
+		case 3:
+			return Pick(r, []string{" ", "\t", "\n"}) + strings.Join(decls, Pick(r, []string{" ; ", ";\t", "\n;\n", ";\r\n"}))
+		case 4:
+			if r.Intn(3) == 0 { // empty declarations are declarations nobody wrote
+				return Pick(r, []string{";", "; ", ""}) + strings.Join(decls, Pick(r, []string{";;", "; ;", ";\n;"})) + Pick(r, []string{"", ";;", ";"})
+			}
+		}
 		return strings.Join(decls, "; ")
 	}
 	s := strings.Join(decls, Pick(r, []string{"; ", ";", " ; ", ";\n", ";;", "; ;"}))
